@@ -12,7 +12,7 @@ package fdo
 //@   params v
 //@   local alg = UnOp#7
 //@   local err = call:cbor.Encoder.Encode#1 | call:cbor.Encoder.Encode#2 | extract1:call:protocol.PublicKey.Public#1
-//@   props C04 C10(sweep)
+//@   props C04 C06(functional) C01(functional) C10(sweep)
 //@   sweep bounds,panic,make,nilmem
 //@   modifies nothing
 //@   ensures! err == nil ==> ChainOk(u(*v))
@@ -437,6 +437,8 @@ package fdo
 //@   sweep bounds,panic,make,nilmem
 //@   callassert SetReplacementHmac#1: @fromdevice u(arg2) == u(*deviceReady.Hmac)
 //@   callsites SetReplacementHmac 1
+//@   assume replhmacset(ctx) != True()
+//@   ensures @stored ? result1 == nil && deviceReady.Hmac != nil ==> replhmacset(ctx) == True()
 
 // ---- DI (C03): credential and stored voucher are built from the same header -----------
 //@ func fdo.DI
@@ -501,7 +503,10 @@ package fdo
 //@   local digest = call:crypto.Hash.New#1
 //@   local expectedOwnerPubKey = extract0:call:fdo.Voucher.OwnerPublicKey#1
 //@   local headerInfo = call:builtin.append#1
+//@   local nextOwnerPubKey = ChangeType#2 | MakeInterface#1 | Phi#1
 //@   local nextOwnerPublicKey = extract0:call:protocol.NewPublicKey#1
+//@   local nextPub = Phi#1 | extract0:TypeAssert#10 | extract0:TypeAssert#7
+//@   local ownerPub = call:crypto.Signer.Public#1 | extract0:TypeAssert#1 | extract0:TypeAssert#11 | extract0:TypeAssert#2 | extract0:TypeAssert#9
 //@   local ownerPubKey = call:crypto.Signer.Public#1
 //@   props C04 C03 C10(sweep)
 //@   sweep bounds,panic,make
@@ -512,6 +517,9 @@ package fdo
 //@   callassert newSignedEntry#1: @hdrhash arg2.HeaderHash.Algorithm == alg && bytes(arg2.HeaderHash.Value) == digest(happ(hinit(u(hashfn(alg))), bytes(headerInfo)))
 //@   callassert newSignedEntry#1: @prevhash arg2.PreviousHash.Algorithm == alg && imp(len(v.Entries) == 0, bytes(arg2.PreviousHash.Value) == digest(happ(happ(hinit(u(hashfn(alg))), Enc(u(v.Header.Val))), Enc(u(v.Hmac))))) && imp(len(v.Entries) > 0, bytes(arg2.PreviousHash.Value) == digest(happ(hinit(u(hashfn(alg))), Enc(u(v.Entries[len(v.Entries)-1])))))
 //@   callassert newSignedEntry#1: @nextkey u(arg2.PublicKey) == u(*nextOwnerPublicKey)
+//@   callassert newSignedEntry#1: @nextkind (dyntype(nextOwnerPubKey, "*ecdsa.PublicKey") && dyntype(ownerPubKey, "*ecdsa.PublicKey")) || (dyntype(nextOwnerPubKey, "*rsa.PublicKey") && dyntype(ownerPubKey, "*rsa.PublicKey"))
+//@   callassert newSignedEntry#1: @nextcurve ? dyntype(nextOwnerPubKey, "*ecdsa.PublicKey") ==> u(nextPub.Curve) == u(ownerPub.Curve)
+//@   callassert newSignedEntry#1: @nextsize ? dyntype(nextOwnerPubKey, "*rsa.PublicKey") ==> RsaSize(u(nextPub)) == RsaSize(u(ownerPub))
 
 //@ func fdo.newSignedEntry
 //@   params owner usePSS payload
@@ -653,11 +661,12 @@ package fdo
 //@ func fdo.exchangeServiceInfo
 //@   params ctx transport proveDvNonce setupDvNonce mtu initInfo sess c
 //@   local done = extract1:call:fdo.exchangeServiceInfoRound#1 | extract1:call:fdo.exchangeServiceInfoRound#2
-//@   props C16 C10(sweep)
+//@   props C16 C15(functional) C10(sweep)
 //@   sweep bounds,panic,make
 //@   requires @owner OwnerProven(u(sess))
 //@   requires @device DeviceProven(u(sess))
 //@   requires @keyinv initInfo.r != nil ==> hdr(len(initInfo.key)) + len(initInfo.key) <= len(initInfo.rkey)
+//@   callassert exchangeServiceInfoRound#*: @reserve arg2 == old(mtu) - 5
 //@   callsites sendDone 2
 //@   callassert sendDone#1: @done done
 //@   callassert sendDone#2: @done done
@@ -669,6 +678,7 @@ package fdo
 // at least one was taken; the reader's key invariant is kept across the batch
 //@ func fdo.exchangeServiceInfoRound
 //@   params ctx transport mtu r w sess
+//@   local chunk = extract0:call:serviceinfo.ChunkReader.ReadChunk#1
 //@   local maxRead = BinOp#4 | Phi#1
 //@   local msg = UnOp#2 | addr:Alloc#1
 //@   props C15 C16 C10(sweep)
@@ -680,6 +690,8 @@ package fdo
 //@   invariant loop#2: r.r != nil ==> hdr(len(r.key)) + len(r.key) <= len(r.rkey)
 //@   callsites ReadChunk 1
 //@   callassert ReadChunk#1: @budget arg1 == maxRead
+//@   callsites KV.Size 1
+//@   callassert KV.Size#1: @fits u(arg0) == u(chunk) && kvsize(len(arg0.Key), len(arg0.Val)) <= int(maxRead)
 //@   callassert sendDeviceServiceInfo#1: @more msg.IsMoreServiceInfo ==> maxRead != mtu
 //@   callassert exchangeServiceInfoRound#1: @same arg2 == mtu && u(arg3) == u(r) && u(arg4) == u(w) && u(arg5) == u(sess)
 
@@ -724,3 +736,21 @@ package fdo
 //@   modifies nothing
 //@   ensures @unknown ? !known ==> dyntype(result0, "serviceinfo.UnknownModule")
 //@   ensures @known ? known ==> u(result0) == u(module)
+
+// the yield callback handed to a device module always forces a message break (C15: an
+// explicit yield starts a new batch, whatever was or was not written before it)
+//@ func fdo.handleOwnerModuleMessage$2
+//@   props C15 C16
+//@   sweep bounds
+//@   assume forcednew(send) != True()
+//@   callsites ForceNewMessage 1
+//@   callassert ForceNewMessage#1: @writer u(arg0) == u(send)
+//@   ensures @always forcednew(send) == True()
+
+//@ func fdo.handleOwnerModuleYield$2
+//@   props C15 C16
+//@   sweep bounds
+//@   assume forcednew(send) != True()
+//@   callsites ForceNewMessage 1
+//@   callassert ForceNewMessage#1: @writer u(arg0) == u(send)
+//@   ensures @always forcednew(send) == True()
